@@ -19,7 +19,7 @@ VERIF = os.path.dirname(os.path.dirname(os.path.abspath(__file__)))
 REPLAYS = os.environ.get('VERIF_REPLAYS') or os.path.join(VERIF, 'replays')
 EVIDENCE = os.environ.get('VERIF_EVIDENCE') or os.path.join(VERIF, 'evidence')
 KNOWN = os.path.join(VERIF, 'known_findings.json')
-PER_RUN_WALL = int(os.environ.get('VERIF_PER_RUN_WALL', '120'))
+PER_RUN_WALL = int(os.environ.get('VERIF_PER_RUN_WALL', '900'))
 
 
 def load_check(prop: str):
